@@ -343,7 +343,7 @@ def compare_topo(sph, site, triad, p, v, where):
         worst = max(worst, errs[k] / tol[k])
         if errs[k] > tol[k]:
             want = dict(r=rng, az=az, el=el, rdot=rdot, azdot=azdot, eldot=eldot)[k]
-            have = dict(r=got[0], az=(-got[1]) % TWO_PI, el=got[2], rdot=got[3], azdot=-got[4], eldot=got[5])[k]
+            have = float(dict(r=got[0], az=(-got[1]) % TWO_PI, el=got[2], rdot=got[3], azdot=-got[4], eldot=got[5])[k])
             raise Violation(
                 f"topo-{k}",
                 f"{where}: library {k} = {have!r}, WGS-84 ENU gives {want!r} (diff {errs[k]:.3g}, tol {tol[k]:.3g}; "
@@ -539,7 +539,7 @@ def check_measures(case):
                 raise Violation("measure-template", "from_orbit modified the receiver")
             vals[klass.__name__] = float(m.value)
         # exactly the topocentric quantities of the conversion
-        want = dict(Range=sph[0] * legs, Azimut=sph[1], Elevation=sph[2], Doppler=sph[3])
+        want = dict(Range=float(sph[0] * legs), Azimut=float(sph[1]), Elevation=float(sph[2]), Doppler=float(sph[3]))
         for name, w in want.items():
             if vals[name] != w:
                 raise Violation(f"measure-{name.lower()}",
@@ -626,12 +626,12 @@ FINDINGS = {
 
 FACETS = [
     Facet("site", site_case, check_site, setup=setup_eop,
-          rule="|lat| > 1 deg", quick=(8, 30), thorough=(96, 30)),
+          rule="|lat| > 1 deg", quick=(16, 30), thorough=(192, 30)),
     Facet("topocentric", topo_case, check_topocentric, setup=setup_eop,
           rule="|lat| > 1 deg and at least one target more than 0.1 deg from the vertical",
-          quick=(16, 22), thorough=(240, 22)),
+          quick=(32, 22), thorough=(480, 22)),
     Facet("measures", measures_case, check_measures, setup=setup_eop,
-          rule="every case (4 measure types x targets)", quick=(6, 30), thorough=(48, 30)),
+          rule="every case (4 measure types x targets)", quick=(8, 30), thorough=(96, 30)),
     Facet("mask", mask_case, check_mask,
-          rule="at least one query azimuth that is not a table node", quick=(8, 36), thorough=(64, 36)),
+          rule="at least one query azimuth that is not a table node", quick=(8, 36), thorough=(96, 36)),
 ]
